@@ -93,6 +93,11 @@ def event_projects():
                                                                         rg.command_src("search", [("query", "ListAllParams")], "Vec<Foo>"))]))
     P.append(("struct-named-like-a-numbered-parameter-object", [("lib.rs", a + rg.struct_src("GetUserParams", [("id", "i32")]) + rg.struct_src("GetUser2Params", [("id", "i32")]) +
                                                                   rg.command_src("get_user", [("params", "GetUserParams"), ("more", "GetUser2Params")], "Foo"))]))
+    # Channel has a default message type: the path-qualified name alone is Tauri's channel too (a bare `Channel` is taken for a
+    # project type by design, so it falls under the statement's premise)
+    for k, ty in enumerate(("tauri::ipc::Channel", "tauri::ipc::Channel<>")):
+        P.append(("channel-without-message-type-%d" % k, [("lib.rs", a + rg.command_src("download", [("url", "String"), ("on_chunk", ty)], "i32"))]))
+        P.append(("channel-without-message-type-%d-next-to-a-typed-one" % k, [("lib.rs", a + rg.command_src("download", [("on_chunk", ty), ("on_progress", "Channel<Foo>")], "i32"))]))
     for nm in ("types", "invoke", "listen", "z", "channel", "command_hooks", "zod_error"):
         P.append(("command-named-%s" % nm, [("lib.rs", a + rg.command_src(nm, [("id", "i32")], "Foo") + rg.command_src(nm + "_", [("w", "Wrap")], "i32"))]))
     P.append(("event-in-command-body", [("lib.rs", a + rg.command_src("go", [("app", "AppHandle"), ("k", "Kind")], "Foo", body="app.emit(\"started\", k).unwrap(); todo!()"))]))
